@@ -1549,6 +1549,14 @@ impl<T: Storage> Raft<T> {
             return;
         }
 
+        if !self.promotable {
+            warn!(
+                self.logger,
+                "{} is unpromotable and can not campaign", self.id
+            );
+            return;
+        }
+
         // Scan all unapplied committed entries to find a config change.
         // Paginate the scan, to avoid a potentially unlimited memory spike.
         //
